@@ -507,7 +507,8 @@ def parsePackage (ts : List Token) : PR (List Name) :=
   | .err p c => .err p c
   | .ok _ ts => parsePackageLoop (ts.length + 1) [] ts
 
-/-- the definition loop of `Parser.Parse` -/
+/-- the definition loop of `Parser.Parse` (`for token != EOF { ... }`), entered by `grammar` only
+    when the current token is not EOF: one definition, then the loop test. -/
 def parseDefs : Nat → Schema → List Token → PR Schema
   | 0, _, ts => .err (cur ts).pos .outOfFuel
   | n + 1, σ, ts =>
@@ -522,11 +523,14 @@ def parseDefs : Nat → Schema → List Token → PR Schema
     | .err p c => .err p c
     | .ok σ ts => if (cur ts).tok = .eof then .ok σ ts else parseDefs n σ ts
 
-/-- the grammar phase of `Parser.Parse`: everything before `ResolveRefs`. -/
+/-- the grammar phase of `Parser.Parse`: everything before `ResolveRefs`. A text that ends after
+    the package clause is accepted (no definitions). -/
 def grammar (ts : List Token) : PR Schema :=
   match parsePackage ts with
   | .err p c => .err p c
-  | .ok pkg ts => parseDefs (ts.length + 1) { pkg := pkg } ts
+  | .ok pkg ts =>
+    if (cur ts).tok = .eof then .ok { pkg := pkg } ts
+    else parseDefs (ts.length + 1) { pkg := pkg } ts
 
 /-! ## ResolveRefs (schema.go) -/
 
